@@ -166,7 +166,8 @@ theorem or_branch_completes (fuel : Nat) (s : VM) (f : FUid) (i : Inst) (x : Ins
     (hmu : mu ∉ us.map (·.1)) (hfp : fp ≠ pe + 1) :
     ∃ s' i' x', slide (fuel + 4) f uj.1 s = .ok [(f, r)] s' ∧ FlowAt s' f i' x' cfg ∧ x'.ctxOwner = x.ctxOwner ∧
       hview i' = [(r, pe + 1, HeadStatus.active)] ∧ s'.r.nextUid = s.r.nextUid ∧ i'.status = i.status ∧ s'.r.cleared = s.r.cleared ∧
-      ∃ y', OMap.lookup (f, r) s'.r.hx = some y' ∧ y'.catchLabels = ((OMap.lookup (f, uj.1) s.r.hx).getD {}).catchLabels := by
+      (∃ y', OMap.lookup (f, r) s'.r.hx = some y' ∧ y'.catchLabels = ((OMap.lookup (f, uj.1) s.r.hx).getD {}).catchLabels) ∧
+      s'.r.queue = s.r.queue := by
   have hndv : ((hview i).map (·.1)).Nodup := by
     rw [hv, List.map_cons, renderB_fst _ _ _ hlen]; exact hndu
   -- the merging head and the forking head
